@@ -5,6 +5,14 @@
 package main
 
 import (
+	_ "github.com/relab/gorums/benchmark"
+	_ "github.com/relab/gorums/tests/config"
+	_ "github.com/relab/gorums/tests/correctable"
+	_ "github.com/relab/gorums/tests/metadata"
+	_ "github.com/relab/gorums/tests/oneway"
+	_ "github.com/relab/gorums/tests/tls"
+	_ "github.com/relab/gorums/tests/unresponsive"
+
 	"fmt"
 	"os"
 	"os/exec"
@@ -48,6 +56,7 @@ func init() {
 	register("C11", "exploration", 2, 8, 300, 5000, 4*time.Minute, 30*time.Minute, eng.RunCorr)
 	register("C19", "exploration", 2, 8, 1000, 100000, 5*time.Minute, 30*time.Minute, eng.RunSorters)
 	register("C14", "exploration", 2, 8, 500, 20000, 5*time.Minute, 30*time.Minute, eng.RunConfigs)
+	register("C13", "exploration", 2, 8, 5000, 100000, 5*time.Minute, 30*time.Minute, eng.RunCodec)
 	register("C18", "exploration", 4, 16, 4, 40, 8*time.Minute, 60*time.Minute, eng.RunResidue)
 }
 
@@ -79,6 +88,10 @@ func main() {
 		os.Exit(2)
 	}
 	prop, tier := os.Args[2], os.Args[3]
+	if os.Args[1] == "serve" {
+		eng.Serve()
+		return
+	}
 	sp, ok := specs[prop]
 	if !ok {
 		fmt.Fprintln(os.Stderr, "unknown property", prop)
